@@ -134,6 +134,10 @@ fn run_history(start: &str, ops: &mut dyn FnMut(&RealState, usize) -> Option<Str
             rep.oracle("inv", &format!("{}:{}", opname, inv_sig(&e)), &case.script(), &e);
             break;
         }
+        if let Err(e) = accessors_agree(&st.tree, &slots) {
+            rep.oracle("accessors", &format!("{}:{}", opname, inv_sig(&e)), &case.script(), &e);
+            break;
+        }
         let d = case.step(&mut st, "ar.dump", Cmp::Exact);
         if d.starts_with("bad-case") {
             rep.count("inexact_length");
